@@ -235,7 +235,9 @@ func (r *FirstLastReader) after(val interface{}, tm int64, rowIndex int, ctx *Re
 }
 
 func (r *FirstLastReader) readRowIndex(ctx *ReadContext, timeCol, dataCol *record.ColVal) int {
-	if r.first {
+	// the columns of a descending read are decoded newest first: the first value in time is
+	// the last row of the range
+	if r.first == ctx.Ascending {
 		return readFirstRowIndex(timeCol, dataCol, ctx.tr, ctx.Ascending)
 	}
 	return readLastRowIndex(timeCol, dataCol, ctx.tr, ctx.Ascending)
